@@ -85,7 +85,9 @@ _mk('Mahony.IMU', lambda q0, *d: flt.Mahony(*d, q0=q0) if d else flt.Mahony(q0=q
 _mk('Mahony.MARG', lambda q0, *d: flt.Mahony(*d, q0=q0) if d else flt.Mahony(q0=q0),
     lambda f, q, g, a, m: f.updateMARG(q, g, a, m), sensors=('g', 'a', 'm'), state=('b',), tiers=('thorough',),
     functions=[FF + 'mahony:Mahony._compute_all', FF + 'mahony:Mahony.updateMARG'])
-_mk('Madgwick.MARG', lambda q0, *d: flt.Madgwick(*d, q0=q0) if d else flt.Madgwick(q0=q0),
+# (the data-less instance is given the MARG gain explicitly: with its defaults it takes the IMU gain, KF-C06-madgwick-marg-gain,
+# which is checked on its own in C06/Madgwick.default-gain)
+_mk('Madgwick.MARG', lambda q0, *d: flt.Madgwick(*d, q0=q0) if d else flt.Madgwick(q0=q0, gain=0.041),
     lambda f, q, g, a, m: f.updateMARG(q, g, a, m), sensors=('g', 'a', 'm'), tiers=('thorough',),
     functions=[FF + 'madgwick:Madgwick._compute_all', FF + 'madgwick:Madgwick.updateMARG'])
 _mk('AngularRate', lambda q0, *d: flt.AngularRate(*d, q0=q0) if d else flt.AngularRate(q0=q0),
@@ -188,3 +190,20 @@ def mahony_b0(h):
         fb.updateIMU(q0.copy(), o.copy(), a[t].copy())
     _cmp(h, 'streaming (interleaved with another instance) == batch', np.array(Qs), Q1)
     h.check("caller's b0 unchanged by streaming", h.eq(b0, before))
+
+
+@harness('C06/Madgwick.default-gain', functions=[FF + 'madgwick:Madgwick._set_gain'], max_paths=4, bounds='default gains; concrete N=2 history')
+def madgwick_default_gain(h):
+    """with default settings, the data-less Madgwick instance streams MARG samples with the gain its MARG constructor uses"""
+    h.definedness = 'assume'
+    x = h.real('dummy', 0.0, 1.0)
+    g = np.array([[0.1, -0.2, 0.3]] * 2)
+    a = np.array([[0.3, -0.2, 2.0]] * 2)
+    m = np.array([[1.0, 0.2, 1.5]] * 2)
+    batch = flt.Madgwick(g.copy(), a.copy(), m.copy())
+    stream = flt.Madgwick()
+    kf = h.kf('KF-C06-madgwick-marg-gain', h.true())
+    h.check('Madgwick() streams MARG samples with the gain Madgwick(gyr, acc, mag) uses (outside KF-C06-madgwick-marg-gain)',
+            kf | h.eq(stream.gain + 0.0 * x, batch.gain))
+    batch_imu = flt.Madgwick(g.copy(), a.copy())
+    h.check('Madgwick() streams IMU samples with the gain Madgwick(gyr, acc) uses', h.eq(stream.gain + 0.0 * x, batch_imu.gain))
